@@ -27,3 +27,5 @@ def _bt_laws(ctx):
 BOUNDED = BOUNDED + [_bt_attr_ops, _bt_laws]
 
 FUNCTIONS = FUNCTIONS + [M + 'match_nth', M + 'match_nth_tag_type']
+
+FUNCTIONS = FUNCTIONS + [q for q in ATTRS if q not in FUNCTIONS]
